@@ -9,6 +9,12 @@ import TLX.Drv.Suite
 import TLX.Drv.TcpOut
 import TLX.Drv.Csum
 import TLX.Drv.Keys
+import TLX.Drv.Frames
+import TLX.Drv.RecLayer
+import TLX.Drv.Keylog
+import TLX.Drv.Options
+import TLX.Drv.Container
+import TLX.Drv.Reasm
 
 def main (args : List String) : IO UInt32 := do
   match args with
@@ -17,4 +23,11 @@ def main (args : List String) : IO UInt32 := do
   | ["tcpout"] => TLX.Drv.TcpOut.main; return 0
   | ["csum"] => TLX.Drv.Csum.main; return 0
   | ["keys"] => TLX.Drv.Keys.main; return 0
+  | ["frames"] => TLX.Drv.Frames.main; return 0
+  | ["reclayer"] => TLX.Drv.RecLayer.main; return 0
+  | ["keylog"] => TLX.Drv.Keylog.main; return 0
+  | ["options"] => TLX.Drv.Options.main; return 0
+  | ["container"] => TLX.Drv.Container.main; return 0
+  | ["reasm"] => TLX.Drv.Reasm.main; return 0
+  | ["reasm-legacy"] => TLX.Drv.Reasm.mainLegacy; return 0
   | _ => IO.eprintln "usage: tlxdriver <module>"; return 2
